@@ -406,6 +406,48 @@ def desugar_map_collect(body, recv, ty, inv, item):
     return body[:mm.start()] + new + body[close + 1 + tail.end():]
 
 
+def desugar_filter_partition(body, recv, inv, item):
+    """`let (A, B): (Vec<_>, Vec<_>) = recv.chars().filter(|c| P).partition(|c| Q);` -> the loop it denotes:
+    every character with P goes to A if Q, else to B, in order. The closure bodies P and Q are kept verbatim (their
+    parameter `c: &char` is bound to a reference to the loop variable)."""
+    m = mask(body)
+    pat = re.compile(r"let\s*\(\s*(\w+)\s*,\s*(\w+)\s*\)\s*:\s*\(\s*Vec<_>\s*,\s*Vec<_>\s*\)\s*=\s*" + re.escape(recv) +
+                     r"\s*\.chars\(\)\s*\.filter\(\s*\|(\w+)\|")
+    ms = list(pat.finditer(m))
+    if len(ms) != 1:
+        raise AnchorLost("%s: `let (a, b): (Vec<_>, Vec<_>) = %s.chars().filter(|c| ..).partition(|c| ..)` found %d times" % (item.ident, recv, len(ms)))
+    mm = ms[0]
+    a_name, b_name, p1 = mm.group(1), mm.group(2), mm.group(3)
+    s2 = Src("<mem>", body)
+    par1 = m.rfind("(", 0, mm.end())          # the '(' of filter(
+    close1 = s2.match_close(par1)
+    pred1 = body[mm.end():close1].strip()
+    tail = re.match(r"\s*\.partition\(\s*\|(\w+)\|", m[close1 + 1:])
+    if not tail:
+        raise AnchorLost("%s: filter(..) is not followed by .partition(|c| ..)" % item.ident)
+    p2 = tail.group(1)
+    par2 = close1 + 1 + m[close1 + 1:].index("(")
+    close2 = s2.match_close(par2)
+    pred2 = body[close1 + 1 + tail.end():close2].strip()
+    semi = re.match(r"\s*;", m[close2 + 1:])
+    if not semi:
+        raise AnchorLost("%s: partition(..) is not followed by `;`" % item.ident)
+    # optional proof text for the start of the loop body after a line `//@body`
+    body_pre = ""
+    if "//@body" in inv:
+        inv, body_pre = inv.split("//@body", 1)
+    cl = count_clauses(inv)
+    for k in cl:
+        item.clauses[k] += cl[k]
+    item.carrying += cl["invariant"]
+    new = ("let mut %s: Vec<char> = Vec::new(); let mut %s: Vec<char> = Vec::new();\n"
+           "for verif_c in verif_it: %s.chars()\n%s\n{ %s\n let %s = &verif_c; if %s { let %s = &verif_c; if %s { %s.push(verif_c); } else { %s.push(verif_c); } } }"
+           % (a_name, b_name, recv, inv.rstrip(), body_pre.strip(), p1, pred1, p2, pred2, a_name, b_name))
+    item.rewrites.append({"old": body[mm.start():close2 + 1 + semi.end()], "new": "explicit loop",
+                          "note": "std-equivalent: chars().filter(p).partition(q) desugared to the loop it denotes (closure bodies verbatim)"})
+    return body[:mm.start()] + new + body[close2 + 1 + semi.end():]
+
+
 def apply_befores(body, befores, item):
     """Insert proof scaffolding text before the unique occurrence of an anchor text."""
     for anchor, txt in befores:
@@ -540,6 +582,8 @@ def render_fn(s, loc, contract, opts, item, indent=""):
             if n_ == 0:
                 raise AnchorLost("%s: pattern %r not found" % (item.ident, rx_))
             item.rewrites.append({"old": "regex " + rx_, "new": rep_, "note": "std-equivalent (%d occurrences): %s" % (n_, note_)})
+        for recv_, inv_ in opts.get("filter_partitions", []):
+            body = desugar_filter_partition(body, recv_, inv_, item)
         for recv_, ty_, inv_ in opts.get("map_collects", []):
             body = desugar_map_collect(body, recv_, ty_, inv_, item)
         for recv in opts.get("desugars", []):
@@ -816,6 +860,7 @@ class Gen:
         rewrites_all = []
         rewrites_rx = []
         map_collects = []
+        filter_partitions = []
         mc_args = None
         desugars = []
         places = {}
@@ -909,6 +954,23 @@ class Gen:
                     new = []
                     i += 1
                     continue
+                if mode == "filterpartition" and d == "body":
+                    new.append("//@body")
+                    i += 1
+                    continue
+                if d == "desugar_filter_partition":
+                    # //@desugar_filter_partition <recv> ; raw lines up to //@enddesugar = invariant of the generated loop
+                    mode = "filterpartition"
+                    mc_args = (toks[1],)
+                    new = []
+                    i += 1
+                    continue
+                if mode == "filterpartition" and d == "enddesugar":
+                    filter_partitions.append((mc_args[0], "\n".join(new)))
+                    new = []
+                    mode = None
+                    i += 1
+                    continue
                 if mode == "mapcollect" and d == "enddesugar":
                     map_collects.append((mc_args[0], mc_args[1], "\n".join(new)))
                     new = []
@@ -942,14 +1004,14 @@ class Gen:
                 raise SystemExit("unexpected directive %r inside block (%s)" % (st, self.unit_path))
             if mode == "replace_old":
                 old.append(lines[i])
-            elif mode in ("replace_new", "before", "mapcollect"):
+            elif mode in ("replace_new", "before", "mapcollect", "filterpartition"):
                 new.append(lines[i])
             else:
                 cur.append(lines[i])
             i += 1
         for k in loops:
             loops[k]["text"] = "\n".join(loops[k].pop("_buf"))
-        return "\n".join(contract), {"loops": loops, "repls": repls, "sigsub": sigsub, "befores": befores, "annotates": annotates, "desugars": desugars, "rewrites_all": rewrites_all, "rewrites_rx": rewrites_rx, "map_collects": map_collects, "injective": injective,
+        return "\n".join(contract), {"loops": loops, "repls": repls, "sigsub": sigsub, "befores": befores, "annotates": annotates, "desugars": desugars, "rewrites_all": rewrites_all, "rewrites_rx": rewrites_rx, "map_collects": map_collects, "filter_partitions": filter_partitions, "injective": injective,
                                     "places": {k: "\n".join(v) for k, v in places.items()}}, i, term
 
     def vac(self, contract, ident=None):
